@@ -860,6 +860,15 @@ class Association(threading.Thread):
         rsp.AffectedSOPInstanceUID = req.AffectedSOPInstanceUID
         rsp.AffectedSOPClassUID = req.AffectedSOPClassUID
 
+        # As for any other request, the context it arrived on must be accepted
+        if req._context_id not in self._accepted_cx:
+            LOGGER.info(
+                "Received C-STORE request with invalid or rejected "
+                f"context ID: {req._context_id}"
+            )
+            self.abort()
+            return
+
         try:
             context = self._get_valid_context(
                 cast(UID, req.AffectedSOPClassUID),
